@@ -200,6 +200,7 @@ theorem step_holds (c : Cfg) (hc : c.maxFiles = 0) (s : St) (op : Op) (h : Holds
     have h2 := rotate_holds c hc (openFile c s) el h1
     cases hr : (rotate c (openFile c s) el).2 with
     | errRotate => simp only; exact h2
+    | errFormat => simp only; exact h2
     | ok =>
       cases hfd : (rotate c (openFile c s) el).1.fd with
       | none => simp only; exact h2
@@ -247,6 +248,7 @@ theorem step_holds (c : Cfg) (hc : c.maxFiles = 0) (s : St) (op : Op) (h : Holds
         · subst hxe; exact h.wf.dirIn _ hx
       · exact h
     · exact h
+  | noFormat => simp only [step]; exact h
 
 /-- **No loss.** With MaxFiles = 0, after every operation sequence every acknowledged event is in the
 sink's files (rotations, Reopen and external renames of the active file included), -/
@@ -306,6 +308,7 @@ theorem step_in_order (c : Cfg) (hc : c.maxFiles = 0) (s : St) (op : Op) (ho : O
       rw [rotate_contents_eq c hc, rotate_acked, (open_contents c s).1, (open_contents c s).2, h]
     cases hr : (rotate c (openFile c s) el).2 with
     | errRotate => simp only; exact hcont
+    | errFormat => simp only; exact hcont
     | ok =>
       cases hfd : (rotate c (openFile c s) el).1.fd with
       | none => simp only; exact hcont
@@ -328,6 +331,7 @@ theorem step_in_order (c : Cfg) (hc : c.maxFiles = 0) (s : St) (op : Op) (ho : O
       · exact h
       · exact h
     · exact h
+  | noFormat => simp only [step]; exact h
 
 /-- **Exactly once, in acknowledgement order, across files.**  With MaxFiles = 0, after every
 operation sequence (size- or time-triggered rotations, Reopen, external renames of the active file)
@@ -522,6 +526,7 @@ theorem step_suffix (c : Cfg) (s : St) (op : Op) (hop : notRename op = true) (ho
       exact List.IsSuffix.trans hs h
     cases hr : (rotate c (openFile c s) el).2 with
     | errRotate => simp only; exact ⟨hcont, hnf⟩
+    | errFormat => simp only; exact ⟨hcont, hnf⟩
     | ok =>
       cases hfd : (rotate c (openFile c s) el).1.fd with
       | none => simp only; exact ⟨hcont, hnf⟩
@@ -547,6 +552,7 @@ theorem step_suffix (c : Cfg) (s : St) (op : Op) (hop : notRename op = true) (ho
         · exact hf
       · exact hf
   | extRename k => cases hop
+  | noFormat => simp only [step]; exact ⟨h, hf⟩
 
 /-- **Retention leaves a suffix.**  For every configuration (any MaxFiles) and every operation
 sequence in which nobody renames files away, what the sink's files hold — read oldest to newest — is
